@@ -388,11 +388,11 @@ def genExpected {α : Type} (f : α → V) (e : Option (List α × Bool)) : Opti
 /-- the answer line `Afkak.Monitor.C05` demands of the decoder for `Spec.X.enc v`
     (`none` = `v` is outside the property's quantifier) -/
 def SpecVal.expected (s : St) : SpecVal → Option (List String)
-  | .msgSet v => (Monitor.C05.expectedSet Crc.crc32 s.gunzipOpt s.depth v).map (fun g => [showGen g])
+  | .msgSet v => (Monitor.C05.expectedSet Crc.crc32 s.gunzipOpt (s.depth - 1) v).map (fun g => [showGen g])
   | .produce0 v => genExpected vProduce (Monitor.C05.expectedProduceV0 v)
   | .produce2 v => genExpected vProduce (Monitor.C05.expectedProduceV2 v)
-  | .fetch0 v => genExpected vFetch (Monitor.C05.expectedFetchV0 Crc.crc32 s.gunzipOpt s.depth v)
-  | .fetch2 v => genExpected vFetch (Monitor.C05.expectedFetchV2 Crc.crc32 s.gunzipOpt s.depth v)
+  | .fetch0 v => genExpected vFetch (Monitor.C05.expectedFetchV0 Crc.crc32 s.gunzipOpt (s.depth - 1) v)
+  | .fetch2 v => genExpected vFetch (Monitor.C05.expectedFetchV2 Crc.crc32 s.gunzipOpt (s.depth - 1) v)
   | .listOffsets v => genExpected vOffset (Monitor.C05.expectedListOffsets v)
   | .metadata v => (Monitor.C05.expectedMetadata v).map (fun r => ["ok " ++ (vMetadata r).render])
   | .findCoordinator v => (Monitor.C05.expectedFindCoordinator v).map (fun r => ["ok " ++ (vConsumerMetadata r).render])
@@ -406,6 +406,148 @@ def SpecVal.expected (s : St) : SpecVal → Option (List String)
   | .subscription v => (Monitor.C05.expectedSubscription v).map (fun r => ["ok " ++ (vSubscription r).render])
   | .assignment v => (Monitor.C05.expectedAssignment v).map (fun r => ["ok " ++ (vAssignment r).render])
   | .correlationId c _ => (Monitor.C05.expectedCorrelationId c).map (fun r => ["ok " ++ (V.int r).render])
+
+/-! ### the grammar in the other direction, and requests (cross-check against `harness/sim/refcodec.py`) -/
+
+def r2 {α β : Type} (f : α → V) (g : β → V) (p : α × β) : V := .list [f p.1, g p.2]
+def r3 {α β γ : Type} (f : α → V) (g : β → V) (h : γ → V) (p : α × β × γ) : V := .list [f p.1, g p.2.1, h p.2.2]
+def r4 {α β γ δ : Type} (f : α → V) (g : β → V) (h : γ → V) (i : δ → V) (p : α × β × γ × δ) : V :=
+  .list [f p.1, g p.2.1, h p.2.2.1, i p.2.2.2]
+def r5 {α β γ δ ε : Type} (f : α → V) (g : β → V) (h : γ → V) (i : δ → V) (j : ε → V) (p : α × β × γ × δ × ε) : V :=
+  .list [f p.1, g p.2.1, h p.2.2.1, i p.2.2.2.1, j p.2.2.2.2]
+def rl {α : Type} (f : α → V) (l : List α) : V := .list (l.map f)
+def ri : Int → V := V.int
+def rb : Bytes → V := V.bytes
+def rob : Option Bytes → V := optBytes
+
+def vOfSpecMsg (m : Msg) : V := .list [.int m.magic, .int m.attributes, optInt m.timestamp, optBytes m.key, optBytes m.value]
+def vOfEntries : List (Int × Msg) → V := rl (r2 ri vOfSpecMsg)
+def rTopics {α : Type} (f : α → V) : List (Bytes × List α) → V := rl (r2 rb (rl f))
+
+def SpecVal.render : SpecVal → V
+  | .msgSet v => vOfEntries v
+  | .produce0 v => r2 ri (rTopics (r3 ri ri ri)) v
+  | .produce2 v => r3 ri (rTopics (r4 ri ri ri ri)) ri v
+  | .fetch0 v => r2 ri (rTopics (r4 ri ri ri vOfEntries)) v
+  | .fetch2 v => r3 ri ri (rTopics (r4 ri ri ri vOfEntries)) v
+  | .listOffsets v => r2 ri (rTopics (r3 ri ri (rl ri))) v
+  | .metadata v => r3 ri (rl (r3 ri rb ri)) (rl (r3 ri rb (rl (r5 ri ri ri (rl ri) (rl ri))))) v
+  | .findCoordinator v => r5 ri ri ri rb ri v
+  | .offsetCommit v => r2 ri (rTopics (r2 ri ri)) v
+  | .offsetFetch v => r2 ri (rTopics (r4 ri ri rob ri)) v
+  | .joinGroup (c, e, g, p, l, m, ms) => .list [.int c, .int e, .int g, .bytes p, .bytes l, .bytes m, rl (r2 rb rb) ms]
+  | .syncGroup v => r3 ri ri rb v
+  | .heartbeat v => r2 ri ri v
+  | .leaveGroup v => r2 ri ri v
+  | .apiVersions v => r3 ri ri (rl (r3 ri ri ri)) v
+  | .subscription v => r3 ri (rl rb) rob v
+  | .assignment v => r3 ri (rl (r2 rb (rl ri))) rob v
+  | .correlationId c rest => .list [.int c, .bytes rest]
+
+/-- `Spec.X.dec` on a whole byte string (nothing may be left over) -/
+def specDec (kind : String) (bs : Bytes) : Option SpecVal :=
+  let all {α : Type} (c : Codec α) (k : α → SpecVal) : Option SpecVal := ((whole c).dec bs).map k
+  match kind with
+  | "msgset" => ((messageSet Crc.crc32).dec bs).map .msgSet
+  | "produce0" => all produceResponseV0 .produce0
+  | "produce2" => all produceResponseV2 .produce2
+  | "fetch0" => all (fetchResponseV0 Crc.crc32) .fetch0
+  | "fetch2" => all (fetchResponseV2 Crc.crc32) .fetch2
+  | "offset" => all listOffsetsResponse .listOffsets
+  | "metadata" => all metadataResponse .metadata
+  | "consumermetadata" => all findCoordinatorResponse .findCoordinator
+  | "offset_commit" => all offsetCommitResponse .offsetCommit
+  | "offset_fetch" => all offsetFetchResponse .offsetFetch
+  | "join_group" => all joinGroupResponse .joinGroup
+  | "sync_group" => all syncGroupResponse .syncGroup
+  | "heartbeat" => all errorOnlyResponse .heartbeat
+  | "leave_group" => all errorOnlyResponse .leaveGroup
+  | "api_versions" => all apiVersionsResponse .apiVersions
+  | "join_group_protocol_metadata" => all Spec.subscription .subscription
+  | "sync_group_member_assignment" => all Spec.assignment .assignment
+  | _ => none
+
+/-- a whole request of the grammar: header and body, by API -/
+inductive SpecReq
+  | produce (h : Header) (b : Spec.ProduceReq)
+  | fetch (h : Header) (b : Spec.FetchReq)
+  | listOffsets (h : Header) (b : Spec.ListOffsetsReq)
+  | metadata (h : Header) (b : List Bytes)
+  | offsetCommit (h : Header) (b : Spec.OffsetCommitReq)
+  | offsetFetch (h : Header) (b : Spec.OffsetFetchReq)
+  | findCoordinator (h : Header) (b : Bytes)
+  | joinGroup (h : Header) (b : Spec.JoinGroupReq)
+  | syncGroup (h : Header) (b : Spec.SyncGroupReq)
+  | heartbeat (h : Header) (b : Spec.HeartbeatReq)
+  | leaveGroup (h : Header) (b : Spec.LeaveGroupReq)
+  | apiVersions (h : Header)
+
+def headerOfV : V → Option Header
+  | .list [.int k, .int v, .int c, cid] => cid.toOptBytes?.map (fun cid => ⟨k, v, c, cid⟩)
+  | _ => none
+
+def vOfHeader (h : Header) : V := .list [.int h.apiKey, .int h.apiVersion, .int h.correlationId, optBytes h.clientId]
+
+def parseSpecReq (api : String) (hv bv : V) : Option SpecReq := do
+  let h ← headerOfV hv
+  match api with
+  | "produce" => (t3 vi vi (specTopics (t2 vi specEntriesOfV)) bv).map (.produce h)
+  | "fetch" => (t4 vi vi vi (specTopics (t3 vi vi vi)) bv).map (.fetch h)
+  | "offset" => (t2 vi (specTopics (t3 vi vi vi)) bv).map (.listOffsets h)
+  | "metadata" => (tl vb bv).map (.metadata h)
+  | "offset_commit" => (t4 vb vi vb (specTopics (t4 vi vi vi vob)) bv).map (.offsetCommit h)
+  | "offset_fetch" => (t2 vb (specTopics vi) bv).map (.offsetFetch h)
+  | "consumermetadata" => (vb bv).map (.findCoordinator h)
+  | "join_group" => (t5 vb vi vb vb (tl (t2 vb vb)) bv).map (.joinGroup h)
+  | "sync_group" => (t4 vb vi vb (tl (t2 vb vb)) bv).map (.syncGroup h)
+  | "heartbeat" => (t3 vb vi vb bv).map (.heartbeat h)
+  | "leave_group" => (t2 vb vb bv).map (.leaveGroup h)
+  | "api_versions" => some (.apiVersions h)
+  | _ => none
+
+def SpecReq.enc : SpecReq → Bytes
+  | .produce h b => (request (produceRequest Crc.crc32)).enc (h, b)
+  | .fetch h b => (request fetchRequest).enc (h, b)
+  | .listOffsets h b => (request listOffsetsRequest).enc (h, b)
+  | .metadata h b => (request metadataRequest).enc (h, b)
+  | .offsetCommit h b => (request offsetCommitRequest).enc (h, b)
+  | .offsetFetch h b => (request offsetFetchRequest).enc (h, b)
+  | .findCoordinator h b => (request findCoordinatorRequest).enc (h, b)
+  | .joinGroup h b => (request joinGroupRequest).enc (h, b)
+  | .syncGroup h b => (request syncGroupRequest).enc (h, b)
+  | .heartbeat h b => (request heartbeatRequest).enc (h, b)
+  | .leaveGroup h b => (request leaveGroupRequest).enc (h, b)
+  | .apiVersions h => (request apiVersionsRequest).enc (h, ())
+
+def SpecReq.render : SpecReq → V
+  | .produce h b => .list [vOfHeader h, r3 ri ri (rTopics (r2 ri vOfEntries)) b]
+  | .fetch h b => .list [vOfHeader h, r4 ri ri ri (rTopics (r3 ri ri ri)) b]
+  | .listOffsets h b => .list [vOfHeader h, r2 ri (rTopics (r3 ri ri ri)) b]
+  | .metadata h b => .list [vOfHeader h, rl rb b]
+  | .offsetCommit h b => .list [vOfHeader h, r4 rb ri rb (rTopics (r4 ri ri ri rob)) b]
+  | .offsetFetch h b => .list [vOfHeader h, r2 rb (rTopics ri) b]
+  | .findCoordinator h b => .list [vOfHeader h, rb b]
+  | .joinGroup h b => .list [vOfHeader h, r5 rb ri rb rb (rl (r2 rb rb)) b]
+  | .syncGroup h b => .list [vOfHeader h, r4 rb ri rb (rl (r2 rb rb)) b]
+  | .heartbeat h b => .list [vOfHeader h, r3 rb ri rb b]
+  | .leaveGroup h b => .list [vOfHeader h, r2 rb rb b]
+  | .apiVersions h => .list [vOfHeader h, .list []]
+
+def specDecReq (api : String) (bs : Bytes) : Option SpecReq :=
+  match api with
+  | "produce" => ((request (produceRequest Crc.crc32)).dec bs).map (fun p => .produce p.1 p.2)
+  | "fetch" => ((request fetchRequest).dec bs).map (fun p => .fetch p.1 p.2)
+  | "offset" => ((request listOffsetsRequest).dec bs).map (fun p => .listOffsets p.1 p.2)
+  | "metadata" => ((request metadataRequest).dec bs).map (fun p => .metadata p.1 p.2)
+  | "offset_commit" => ((request offsetCommitRequest).dec bs).map (fun p => .offsetCommit p.1 p.2)
+  | "offset_fetch" => ((request offsetFetchRequest).dec bs).map (fun p => .offsetFetch p.1 p.2)
+  | "consumermetadata" => ((request findCoordinatorRequest).dec bs).map (fun p => .findCoordinator p.1 p.2)
+  | "join_group" => ((request joinGroupRequest).dec bs).map (fun p => .joinGroup p.1 p.2)
+  | "sync_group" => ((request syncGroupRequest).dec bs).map (fun p => .syncGroup p.1 p.2)
+  | "heartbeat" => ((request heartbeatRequest).dec bs).map (fun p => .heartbeat p.1 p.2)
+  | "leave_group" => ((request leaveGroupRequest).dec bs).map (fun p => .leaveGroup p.1 p.2)
+  | "api_versions" => ((request apiVersionsRequest).dec bs).map (fun p => .apiVersions p.1)
+  | _ => none
 
 end SpecValues
 
@@ -467,6 +609,22 @@ def step (s : St) (line : String) : St × List String :=
     (match V.parseAll toks with
      | none => (s, ["bad-op"])
      | some v => (s, optRes (fun (sv : SpecVal) => ["ok " ++ (V.bytes sv.enc).render]) (parseSpecVal kind v)))
+  | "spec-dec" :: kind :: toks =>
+    (match V.parseAll toks with
+     | some (.bytes bs) => (s, match specDec kind bs with
+        | some sv => ["ok " ++ sv.render.render]
+        | none => ["reject"])
+     | _ => (s, ["bad-op"]))
+  | "spec-enc-req" :: api :: toks =>
+    (match V.parseMany (toks.length + 1) toks with
+     | some [hv, bv] => (s, optRes (fun (r : SpecReq) => ["ok " ++ (V.bytes r.enc).render]) (parseSpecReq api hv bv))
+     | _ => (s, ["bad-op"]))
+  | "spec-dec-req" :: api :: toks =>
+    (match V.parseAll toks with
+     | some (.bytes bs) => (s, match specDecReq api bs with
+        | some r => ["ok " ++ r.render.render]
+        | none => ["reject"])
+     | _ => (s, ["bad-op"]))
   | "mon-c05" :: kind :: toks =>
     -- `<value> | <the answer line of the real decoder>`
     (let (vt, observed) := splitBar toks
@@ -543,6 +701,23 @@ def step (s : St) (line : String) : St × List String :=
             | some (.error e) => ["error " ++ e.name]
             -- new state, version returned, and the format the producer had chosen BEFORE the call
             | some (.ok (st', v)) => ["ok " ++ (V.list [vOfState st', .int v, .int (producerMagic p.1)]).render])
+          (do let st ← stateOfV st; let atts ← attempts.mapM attemptOfV; some (st, atts)))
+      -- the glue of send_produce_request / send_fetch_request: [new state, version to the encoder,
+      -- version to the decoder (n = no decoder), version the request header will carry]
+      | "glue-produce", [st, .list attempts, .int acks] =>
+        (s, optRes (fun (p : ApiVersionsState × List Attempt) =>
+            match sendProduceVersions p.1 p.2 acks with
+            | none => ["pending"]
+            | some (.error e) => ["error " ++ e.name]
+            | some (.ok (st', ve, vd)) =>
+              ["ok " ++ (V.list [vOfState st', .int ve, optInt vd, .int (produceClamp ve).1, .int (producerMagic p.1)]).render])
+          (do let st ← stateOfV st; let atts ← attempts.mapM attemptOfV; some (st, atts)))
+      | "glue-fetch", [st, .list attempts] =>
+        (s, optRes (fun (p : ApiVersionsState × List Attempt) =>
+            match sendFetchVersions p.1 p.2 with
+            | none => ["pending"]
+            | some (.error e) => ["error " ++ e.name]
+            | some (.ok (st', ve, vd)) => ["ok " ++ (V.list [vOfState st', .int ve, .int vd, .int (fetchClamp ve)]).render])
           (do let st ← stateOfV st; let atts ← attempts.mapM attemptOfV; some (st, atts)))
       | "produce-clamp", [.int v] => (s, ["ok " ++ (V.list [.int (produceClamp v).1, .int (produceClamp v).2]).render])
       | "fetch-clamp", [.int v] => (s, ["ok " ++ (V.int (fetchClamp v)).render])
